@@ -3,6 +3,7 @@ Python's hashlib / zlib / a second FNV implementation on independently regenerat
 import glob, hashlib, os, zlib
 
 FNV_LIMIT = 8192  # pure-Python FNV only for inputs up to this size (time budget)
+LCG_LIMIT = (1 << 20) + 1  # the LCG fill is regenerated in pure Python only up to this size (time budget)
 
 
 def fill(n, pat):
@@ -11,7 +12,11 @@ def fill(n, pat):
     if pat == "ff":
         return b"\xff" * n
     if pat == "counter":
-        return bytes(i & 0xFF for i in range(n))
+        return (bytes(range(256)) * (n // 256 + 1))[:n]
+    if pat == "high":
+        return (bytes(0x80 | ((i * 37 + 11) & 0x7F) for i in range(128)) * (n // 128 + 1))[:n]
+    if pat == "ascii":
+        return (bytes(0x20 + i for i in range(95)) * (n // 95 + 1))[:n]
     x = (0x12345678 + n) & 0xFFFFFFFF
     out = bytearray(n)
     for i in range(n):
@@ -31,28 +36,25 @@ def fnv(data, bits):
 
 
 def run(outdir, tier, repo):
-    files = sorted(glob.glob(os.path.join(outdir, "lengths.*.dat")) + glob.glob(os.path.join(outdir, "boundaries.*.dat")))
-    validated, viols, skipped = 0, {}, 0
-    cache = {}
-    seen = set()
+    files = sorted(glob.glob(os.path.join(outdir, "lengths.*.dat")) + glob.glob(os.path.join(outdir, "boundaries.*.dat")) + glob.glob(os.path.join(outdir, "big16m.*.dat")))
+    validated, viols, skipped, skipped_lcg = 0, {}, 0, 0
+    groups = {}  # (n, pat) -> {fn: (ref, got)}; one regenerated input per group
     for f in files:
         for line in open(f):
             parts = line.split()
             if len(parts) != 5:
                 continue
             fn, n, pat, ref, got = parts[0], int(parts[1]), parts[2], parts[3], parts[4]
-            if (fn, n, pat) in seen:  # a restarted shard may repeat a line
-                continue
-            seen.add((fn, n, pat))
+            groups.setdefault((n, pat), {}).setdefault(fn, (ref, got))  # a restarted shard may repeat a line
+    for (n, pat) in sorted(groups):
+        if pat == "lcg" and n > LCG_LIMIT:
+            skipped_lcg += len(groups[(n, pat)])
+            continue
+        data = fill(n, pat)
+        for fn, (ref, got) in sorted(groups[(n, pat)].items()):
             if fn.startswith("fnv") and (n > FNV_LIMIT or (tier == "thorough" and 2048 < n < 4095)):
                 skipped += 1
                 continue
-            key = (n, pat)
-            data = cache.get(key)
-            if data is None:
-                data = fill(n, pat)
-                if n <= 4096:
-                    cache[key] = data
             if fn == "MD5":
                 py = hashlib.md5(data).hexdigest()
             elif fn == "SHA1":
@@ -78,7 +80,7 @@ def run(outdir, tier, repo):
                 viols.setdefault(k, dict(key=k, section="pyoracle", count=0,
                                          desc="%s of %d bytes (%s fill): library %s, Python %s" % (fn, n, pat, got, py)))
                 viols[k]["count"] += 1
-    notes = ["python stage: %d (function, length, pattern) cases re-derived with hashlib/zlib/pure-Python FNV on regenerated inputs; %d FNV cases skipped for size" % (validated, skipped)]
+    notes = ["python stage: %d (function, length, pattern) cases re-derived with hashlib/zlib/pure-Python FNV on regenerated inputs; %d FNV cases skipped for size, %d LCG-filled cases above 2^20+1 bytes skipped (fill too slow in Python; their all-high-bit twins are re-derived)" % (validated, skipped, skipped_lcg)]
     if not files:
         raise RuntimeError("no case files written by the harness")
     return dict(validated=validated, violations=list(viols.values()), notes=notes)
